@@ -36,6 +36,7 @@ import (
 type obj struct {
 	cfg  *config.Config // an Istio config object, or
 	k8s  runtime.Object // a Kubernetes object
+	twin runtime.Object // Kubernetes copy of an Istio config object that the ambient index reads from the cluster
 	desc string         // kind/namespace/name, for reports
 	feat string         // feature class, for distribution counters
 }
